@@ -51,7 +51,7 @@ class Check:
         self.assumptions = []
         self.bounds = {}
         self.samples = []
-        self.cross_solver = {}
+        self.cross_solver = {}; self.xpool = []
         try:
             self.known = json.load(open(KNOWN))
         except Exception:
@@ -80,6 +80,9 @@ class Check:
         for k, v in ex.havocked.items(): self.havocked[k] = self.havocked.get(k, 0) + v
         if ex.unknowns:
             self.notes.append(f'{ex.unknowns} feasibility queries returned unknown (path kept)'); ex.unknowns = 0
+        xs = getattr(ex, 'xsample', None)
+        if xs:
+            self.xpool += xs[:]; ex.xsample = []
 
     def known_for(self, obligation):
         return [f for f in self.known.get('findings', []) if f.get('property') == self.pid and f.get('obligation') == obligation]
@@ -137,7 +140,34 @@ class Check:
         if len(self.samples) < 12: self.samples.append(s)
 
     # ------------------------------------------------------------ finish
+    def cross_solver_diff(self):
+        """a sample of the oracle queries this run decided is re-decided by the other solver binaries (z3 4.8.12, z3 5.1.0 CLI, cvc5)"""
+        import random
+        from . import portfolio
+        if not self.xpool: return
+        rnd = random.Random(self.seed or 1); pool = self.xpool[:]; rnd.shuffle(pool)
+        k = 6 if self.tier == 'quick' else 30
+        res = {'sampled': 0, 'agree': 0, 'unknown_elsewhere': 0, 'disagree': 0, 'solvers': set()}
+        t0 = time.time()
+        for pc, extra, verdict in pool[:k]:
+            if time.time() - t0 > (60 if self.tier == 'quick' else 400): break
+            outs = portfolio.cross_check(list(pc) + ([extra] if extra is not None else []), timeout_s=15)
+            if not outs: continue
+            res['sampled'] += 1; res['solvers'] |= set(outs)
+            vs = [v for v in outs.values() if v != 'unknown']
+            if any(v != verdict for v in vs):
+                res['disagree'] += 1
+                # the other solvers outvote the in-process verdict => nothing this run says is believed; a single dissenter is recorded
+                if sum(1 for v in vs if v != verdict) * 2 > len(vs): self.obligation('cross-solver', '-', 'inconclusive', f'solvers disagree on a query this run decided {verdict}: {outs}')
+                else: self.notes.append(f'cross-solver: one solver dissents on a query decided {verdict}: {outs}')
+            elif vs: res['agree'] += 1
+            else: res['unknown_elsewhere'] += 1
+        res['solvers'] = sorted(res['solvers'])
+        self.cross_solver = res
+
     def finish(self):
+        try: self.cross_solver_diff()
+        except Exception as e: self.notes.append(f'cross-solver diff skipped: {type(e).__name__}: {e}')
         wall = time.time() - self.t0
         nviol = len(self.violations)
         files = {}
